@@ -2939,3 +2939,122 @@ bus_connection_request_headers (DBusConnection  *connection,
 
   d->want_headers |= headers;
 }
+
+#ifdef DBUS_VERIF
+/* Verification hook (read-only): canonical text of the connection table,
+ * its counters, the per-user table, pending replies and monitors. */
+dbus_bool_t bus_verif_dump_connections (BusConnections *connections, DBusString *out);
+dbus_bool_t bus_verif_dump_matchmaker (BusMatchmaker *matchmaker, const char *tag, DBusString *out);
+
+static const char *
+verif_conn_name (DBusConnection *connection)
+{
+  BusConnectionData *d = BUS_CONNECTION_DATA (connection);
+
+  if (d == NULL)
+    return "(nodata)";
+  if (d->name == NULL)
+    return "(inactive)";
+  return d->name;
+}
+
+dbus_bool_t
+bus_verif_dump_connections (BusConnections *connections,
+                            DBusString     *out)
+{
+  DBusList *link;
+  DBusHashIter iter;
+  int i;
+
+  if (!_dbus_string_append_printf (out, "conns n_completed=%d len_completed=%d n_incomplete=%d len_incomplete=%d n_monitors=%d\n",
+                                   connections->n_completed,
+                                   _dbus_list_get_length (&connections->completed),
+                                   connections->n_incomplete,
+                                   _dbus_list_get_length (&connections->incomplete),
+                                   _dbus_list_get_length (&connections->monitors)))
+    return FALSE;
+
+  _dbus_hash_iter_init (connections->completed_by_user, &iter);
+  while (_dbus_hash_iter_next (&iter))
+    {
+      if (!_dbus_string_append_printf (out, "uid %lu count=%d\n",
+                                       (unsigned long) _dbus_hash_iter_get_uintptr_key (&iter),
+                                       _DBUS_POINTER_TO_INT (_dbus_hash_iter_get_value (&iter))))
+        return FALSE;
+    }
+
+  for (link = _dbus_list_get_first_link (&connections->completed);
+       link != NULL;
+       link = _dbus_list_get_next_link (&connections->completed, link))
+    {
+      DBusConnection *connection = link->data;
+      BusConnectionData *d = BUS_CONNECTION_DATA (connection);
+      DBusList *l2;
+      unsigned long uid = (unsigned long) -1;
+
+      dbus_connection_get_unix_user (connection, &uid);
+
+      if (!_dbus_string_append_printf (out, "conn %s uid=%lu n_services=%d len_services=%d n_rules=%d len_rules=%d monitor=%d pending_fds=%d names=",
+                                       verif_conn_name (connection), uid,
+                                       d->n_services_owned,
+                                       _dbus_list_get_length (&d->services_owned),
+                                       d->n_match_rules,
+                                       _dbus_list_get_length (&d->match_rules),
+                                       d->link_in_monitors != NULL,
+                                       d->n_pending_unix_fds))
+        return FALSE;
+
+      for (l2 = _dbus_list_get_first_link (&d->services_owned);
+           l2 != NULL;
+           l2 = _dbus_list_get_next_link (&d->services_owned, l2))
+        {
+          if (!_dbus_string_append_printf (out, "%s,", bus_service_get_name (l2->data)))
+            return FALSE;
+        }
+
+      if (!_dbus_string_append_byte (out, '\n'))
+        return FALSE;
+    }
+
+  i = 0;
+  for (link = _dbus_list_get_first_link (&connections->incomplete);
+       link != NULL;
+       link = _dbus_list_get_next_link (&connections->incomplete, link))
+    {
+      DBusConnection *connection = link->data;
+      BusConnectionData *d = BUS_CONNECTION_DATA (connection);
+
+      if (!_dbus_string_append_printf (out, "incomplete %d authenticated=%d pending_fds=%d\n", i++,
+                                       dbus_connection_get_is_authenticated (connection),
+                                       d->n_pending_unix_fds))
+        return FALSE;
+    }
+
+  for (link = bus_expire_list_get_first_link (connections->pending_replies);
+       link != NULL;
+       link = bus_expire_list_get_next_link (connections->pending_replies, link))
+    {
+      BusPendingReply *pending = link->data;
+
+      if (!_dbus_string_append_printf (out, "reply get=%s send=%s serial=%u\n",
+                                       verif_conn_name (pending->will_get_reply),
+                                       verif_conn_name (pending->will_send_reply),
+                                       pending->reply_serial))
+        return FALSE;
+    }
+
+  for (link = _dbus_list_get_first_link (&connections->monitors);
+       link != NULL;
+       link = _dbus_list_get_next_link (&connections->monitors, link))
+    {
+      if (!_dbus_string_append_printf (out, "monitor %s\n", verif_conn_name (link->data)))
+        return FALSE;
+    }
+
+  if (connections->monitor_matchmaker != NULL &&
+      !bus_verif_dump_matchmaker (connections->monitor_matchmaker, "mrule", out))
+    return FALSE;
+
+  return TRUE;
+}
+#endif /* DBUS_VERIF */
